@@ -59,6 +59,16 @@ class FakePopen:
             return
         self.done = True
         self.returncode = 0 if env.exit_ok else FAIL_CODES[env.perm % 3]
+        if env.outkind == 3:
+            # the program removes the (pre-created) output file itself and writes nothing
+            for flag in ("--out", "-out", "-output", "--guidetree-out", "-tree1", "-tree2"):
+                if flag in self.command:
+                    try:
+                        os.remove(self.command[self.command.index(flag) + 1])
+                    except FileNotFoundError:
+                        pass
+            self.stdout_text = ""
+            return
         if not env.exit_ok and env.perm < 3:
             return                      # fails before writing anything; otherwise: complete output, then the failure
         text = self._alignment_text(env)
@@ -196,6 +206,11 @@ def run_sequence(kind, env_tuple, ops):
             }[name]
             if name == "join" and env.hang and allowed:
                 continue        # would block forever with a real program: not part of the bounded exploration
+            if not env.hang:
+                # the program's own effects on its files (it finishes at the first poll; there is no real time here) belong
+                # to the state before the call, not to the call
+                for pr in env.procs:
+                    pr._finish()
             before = (counter["clean_up"], [os.path.exists(p) for p in paths])
             try:
                 if name == "start":
@@ -331,16 +346,17 @@ def cases(tier, kind):
         ops = [z3.Int(f"op{i}") for i in range(k)]
         launch_ok, hang, exit_ok = z3.Bools("launch_ok hang exit_ok")
         outkind, perm = z3.Ints("outkind perm")
-        base = [ops[0] == first, outkind >= 0, outkind <= 2, perm >= 0, perm < 6,
-                z3.Implies(outkind != 0, perm == 0), z3.Implies(z3.Not(launch_ok), z3.And(z3.Not(hang), exit_ok, outkind == 0)),
-                z3.Implies(hang, z3.And(exit_ok, outkind == 0)), z3.Implies(z3.Not(exit_ok), outkind == 0)]
+        base = [ops[0] == first, outkind >= 0, outkind <= 3, perm >= 0, perm < 6,
+                z3.Implies(z3.And(outkind != 0, outkind != 3), perm == 0), z3.Implies(outkind == 3, perm < 3),
+                z3.Implies(z3.Not(launch_ok), z3.And(z3.Not(hang), exit_ok, outkind == 0)),
+                z3.Implies(hang, z3.And(exit_ok, outkind == 0)), z3.Implies(z3.Not(exit_ok), z3.Or(outkind == 0, outkind == 3))]
         for o in ops:
             base += [o >= 0, o < len(OPS)]
 
         def run(ops=ops, launch_ok=launch_ok, hang=hang, exit_ok=exit_ok, outkind=outkind, perm=perm):
             ex = cur()
             seq = [ex.choose(o, range(len(OPS))) for o in ops]
-            env = (ex.decide(launch_ok), ex.decide(hang), ex.decide(exit_ok), ex.choose(outkind, range(3)), ex.choose(perm, range(6)))
+            env = (ex.decide(launch_ok), ex.decide(hang), ex.decide(exit_ok), ex.choose(outkind, range(4)), ex.choose(perm, range(6)))
             ok, why = run_sequence(kind, env, seq)
             return ok
         out.append(Case(f"{kind} first={OPS[first]} k={k}", base, run,
